@@ -43,7 +43,7 @@ impl Property for C08 {
     fn id(&self) -> &'static str { "C08" }
     fn level(&self) -> &'static str { "exploration" }
     fn rule(&self) -> &'static str {
-        "one node + witness; <= 30 events: local writes (SET/APPEND/INCR/DEL/HSET/HDEL on 3 keys, now and then FLUSHALL/FLUSHDB), remote deltas from replica 2 with stamps 1..10^6 ahead, flush of the delta sink into a segment, checkpoint installation (snapshot + compact_segments), gossip to the witness, crash at any event followed by recovery from whatever is durable (checkpoint only / segments only / WAL only / mixes; WAL on or off per run). After every acknowledged local write its stamp must exceed every stamp of that key the node held just before and every stamp the node ever issued for it; at the end the witness (merging everything ever emitted) must serve the node's last write of every key that no remote delta superseded. Non-trivial = a write to a key after a recovery that restored that key; distinct = event list"
+        "one node + witness; <= 30 events: local writes (SET/APPEND/INCR/DEL/HSET/HDEL on 3 keys, now and then FLUSHALL/FLUSHDB), remote deltas from replica 2 with stamps 1..2^48 ahead, flush of the delta sink into a segment, checkpoint installation (snapshot + compact_segments), gossip to the witness, crash at any event followed by recovery from whatever is durable (checkpoint only / segments only / WAL only / mixes; WAL on or off per run). After every acknowledged local write its stamp must exceed every stamp of that key the node held just before and every stamp the node ever issued for it; at the end the witness (merging everything ever emitted) must serve the node's last write of every key that no remote delta superseded. Non-trivial = a write to a key after a recovery that restored that key; distinct = event list"
     }
     fn components_real(&self) -> Vec<&'static str> { vec!["production::ReplicatedShardedState::{execute,apply_recovered_state,apply_remote_deltas,snapshot_state,set_wal_handle,set_delta_sink}", "ReplicatedShardActor (ApplyRecoveredState, ApplyRemoteDelta, record_mutation_post_execute), ShardReplicaState lamport clocks", "streaming::{StreamingPersistence,CheckpointManager,ManifestManager,RecoveryManager}, delta_sink channel", "streaming::wal_actor (Always policy) + WalRotator::recover_all_entries"] }
     fn components_stubbed(&self) -> Vec<&'static str> { vec!["server_persistent main(): recovery and worker wiring restated (integration.recover -> apply_recovered_state; WAL replay of all entries; delta sink drained into StreamingPersistence at flush events instead of by the timer-driven worker)", "ObjectStore -> SimStore, WalStore -> SimWalStore; gossip transport -> direct hand-over of serialized messages"] }
@@ -70,7 +70,7 @@ impl Property for C08 {
                 5 => Ev::Write(vec![b("DEL"), b(&format!("k{}", k))]),
                 6 | 7 => Ev::Write(vec![b("HSET"), b(&format!("h{}", k)), b(&format!("f{}", s.idx(2))), b(&format!("hv{}", uniq))]),
                 8 => Ev::Write(vec![b("HDEL"), b(&format!("h{}", k)), b(&format!("f{}", s.idx(2)))]),
-                9 | 15 => Ev::Remote { key: k, time: [1u64, 5, 50, 1_000_000][s.idx(4)], hash: s.chance(1, 3), tomb: s.chance(1, 3) },
+                9 | 15 => Ev::Remote { key: k, time: [1u64, 5, 50, 1_000_000, 1 << 33, 1 << 48][s.idx(6)], hash: s.chance(1, 3), tomb: s.chance(1, 3) },
                 10 | 11 => Ev::Flush,
                 12 => Ev::Checkpoint,
                 13 => Ev::GossipToWitness,
@@ -215,6 +215,7 @@ impl Property for C08 {
                             let val = if hash { let mut v = ReplicatedValue::new(rid); v.crdt = CrdtValue::new_hash(); let mut c2 = LamportClock { time: ts.time - 1, replica_id: rid }; v.hash_set(format!("f{}", remote_seq % 2), SDS::from_str(&format!("remote{}", remote_seq)), &mut c2); v } else if tomb { let mut v = ReplicatedValue::with_value(SDS::from_str("gone"), LamportClock { time: ts.time - 1, replica_id: rid }); let mut c2 = LamportClock { time: ts.time - 1, replica_id: rid }; v.delete(&mut c2); v } else { ReplicatedValue::with_value(SDS::from_str(&format!("remote{}", remote_seq)), ts) };
                             let d = ReplicationDelta::new(name.clone(), val, rid);
                             if time >= 1_000_000 { o.probes.push("remote_delta_far_ahead"); }
+                            if time >= 1 << 33 { o.probes.push("remote_delta_over_2_to_the_32_ahead"); }
                             if trace { o.log.push(format!("remote delta from r2: {} @{}", name, show(&d.value.timestamp))); }
                             let m = remote_max.entry(name.clone()).or_insert(d.value.timestamp); if d.value.timestamp > *m { *m = d.value.timestamp; }
                             let m2 = received_max.entry(name).or_insert(d.value.timestamp); if d.value.timestamp > *m2 { *m2 = d.value.timestamp; }
